@@ -70,9 +70,32 @@ def hbin(name):
     return os.path.join(HARNESS, 'target', 'debug', name)
 
 
+_DEP = re.compile(r'^\s*(?:EXTENDS|LOCAL\s+INSTANCE|INSTANCE)\s+(.*)$', re.M)
+_INST = re.compile(r'==\s*INSTANCE\s+(\w+)')
+
+
+def spec_closure(module):
+    """The user modules a module depends on (EXTENDS / INSTANCE), transitively."""
+    seen, todo = [], [module]
+    while todo:
+        m = todo.pop()
+        p = os.path.join(SPEC, m + '.tla')
+        if m in seen or not os.path.exists(p):
+            continue
+        seen.append(m)
+        txt = open(p).read()
+        for line in _DEP.findall(txt):
+            for name in re.split(r'[,\s]+', line.split('WITH')[0]):
+                if name:
+                    todo.append(name)
+        todo += _INST.findall(txt)
+    return sorted(seen)
+
+
 def _spec_digest(module, cfg_text, extra):
     h = hashlib.sha256()
-    for f in sorted(glob.glob(os.path.join(SPEC, '*.tla'))):
+    for m in spec_closure(module):
+        f = os.path.join(SPEC, m + '.tla')
         h.update(os.path.basename(f).encode())
         h.update(open(f, 'rb').read())
     h.update(module.encode())
